@@ -225,6 +225,33 @@ Proof.
   split; [repeat constructor|]. split; [repeat constructor|reflexivity].
 Qed.
 
+(* the escaping of one column is injective on BYTE strings: the model never decodes the text (no UTF-8
+   reading), so values that differ in bytes that are not valid UTF-8 keep different escaped texts; an
+   implementation that walks runes (invalid byte -> U+FFFD) disagrees with k_esc on the K lines and is
+   judged key_collision / merged on the invalid-UTF-8 family (harness/c04utf8.go) *)
+Theorem C04_escape_bytewise_injective : forall s s' : bytes, k_esc s = k_esc s' -> s = s'.
+Proof. exact esc_inj. Qed.
+Print Assumptions C04_escape_bytewise_injective.
+
+(* non-vacuity: "a|\xff", "a|\xfe" and "a|" ++ U+FFFD (the image of both under a UTF-8 decoding walk) are
+   three window keys and three groups *)
+Example C04_invalid_utf8_example :
+  let a := KStr [97; 124; 255]%N in
+  let b := KStr [97; 124; 254]%N in
+  let c := KStr [97; 124; 239; 191; 189]%N in
+  cnt_key (mkKRow 1 [Some a]) <> cnt_key (mkKRow 2 [Some b])
+  /\ cnt_key (mkKRow 1 [Some a]) <> cnt_key (mkKRow 3 [Some c])
+  /\ ses_key (mkKRow 2 [Some b]) <> ses_key (mkKRow 3 [Some c])
+  /\ conforms [KdStr] [a] /\ conforms [KdStr] [b] /\ conforms [KdStr] [c]
+  /\ length (kgroup [mkKRow 1 [Some a]; mkKRow 2 [Some b]; mkKRow 3 [Some c]; mkKRow 4 [Some a]]%Z) = 3.
+Proof.
+  cbv zeta.
+  split; [intro H; vm_compute in H; discriminate H|].
+  split; [intro H; vm_compute in H; discriminate H|].
+  split; [intro H; vm_compute in H; discriminate H|].
+  split; [repeat constructor|]. split; [repeat constructor|]. split; [repeat constructor|reflexivity].
+Qed.
+
 (* non-vacuity: the two tuples the old encoders confused get different keys, and are two groups *)
 Example C04_example :
   enc_tuple [KStr [97; 124; 98]; KStr [99]]%N <> enc_tuple [KStr [97]; KStr [98; 124; 99]]%N
